@@ -2,7 +2,7 @@
   Rollback, micro level (C01 goal 2): the loop bodies of `TxStore.Rollback` against the books.
     rollbackIn        un-spends one input            = inverse of `spendB`
     rollbackOut       removes one output              = `uncreateB`
-    rollbackCbOut     removes one coinbase output     = `uncreateB` (no deposit record: see the note there)
+    rollbackCbOut     removes one coinbase output     = `uncreateB`
   The loop versions are in LedgerRbk2.lean.
 -/
 import MW.Lemmas.LedgerUndo
@@ -337,28 +337,7 @@ theorem rollbackOut_refines {c : Ctx} {ready : List Wid} (hAR : AllReady c.own r
     · simp only [hd, Bool.false_eq_true, if_false]
       exact ⟨_, rfl, ⟨hR1.unspent, hR1.credits, hR1.debits, hR1.game, hR1.txrecs⟩, hB1, hS1'⟩
 
--- ------------------------------------------------------------------ rollbackCbOut
-
-/-- what the coinbase TxOut loop body removes from the books: ledger entry and credit. NOTE: unlike the
-    ordinary loop body it does NOT delete the deposit-history record, so it is `uncreateB` only for an
-    output that is not an owned staking / binding output (`uncreateB_eq_cb`). -/
-def uncreateCbB (own : Own) (t : Tx) (bm : BlockMeta) (B : Book) (j : Nat) (o : Out) : Book :=
-  match ownerOf own o with
-  | none => B
-  | some _ =>
-    { B with
-      L := B.L.filter (fun u => !UCoin.at t.id j u),
-      credits := upd B.credits ⟨t.id, bm, j⟩ none }
-
-theorem uncreateB_eq_cb {own : Own} {t : Tx} {bm : BlockMeta} {B : Book} {j : Nat} {o : Out}
-    (h : (ownerOf own o).isSome = true → isDeposit o.cls = false) :
-    uncreateB own t bm B j o = uncreateCbB own t bm B j o := by
-  unfold uncreateB uncreateCbB
-  cases ho : ownerOf own o with
-  | none => rfl
-  | some wc =>
-    have hd : isDeposit o.cls = false := h (by rw [ho]; rfl)
-    simp only [hd, Bool.false_eq_true, if_false]
+-- ------------------------------------------------------------------ rollbackCbOut ⊑ uncreateB
 
 theorem rollbackCbOut_miss {c : Ctx} {id : TxId} {blk : BlockMeta} {acc : (Store × Bals) × List (TxId × Nat)}
     {i : Nat} {o : Out} (hc : AMap.get acc.1.1.credits ⟨id, blk, i⟩ = none) :
@@ -367,43 +346,54 @@ theorem rollbackCbOut_miss {c : Ctx} {id : TxId} {blk : BlockMeta} {acc : (Store
   simp only [hc]
   rfl
 
+/-- the coinbase TxOut loop body on an owned output: like the ordinary one (`rollbackOut_owned`), the deposit
+    record of a staking / binding output goes with the credit; nothing is written to the pending tables -/
 theorem rollbackCbOut_owned {c : Ctx} {id : TxId} {blk : BlockMeta} {acc : (Store × Bals) × List (TxId × Nat)}
     {i : Nat} {o : Out} {cr : Credit} {w : Wid} {ch : Bool}
     (hc : AMap.get acc.1.1.credits ⟨id, blk, i⟩ = some cr) (hr : o.cls ≠ .raw)
     (hg : AMap.get c.own o.addr = some (w, ch)) :
     rollbackCbOut c id blk acc i o =
       (rollbackOwnedOut id blk ({ acc.1.1 with credits := AMap.erase acc.1.1.credits ⟨id, blk, i⟩ }, acc.1.2) i o w
-        >>= fun sb' => pure (sb', acc.2 ++ [(id, i)])) := by
+        >>= fun sb' =>
+          if isDeposit o.cls then
+            pure (({ sb'.1 with game := AMap.erase sb'.1.game ⟨w, o.cls.isBinding, false, id, blk.height, i⟩ }, sb'.2),
+                  acc.2 ++ [(id, i)])
+          else pure (sb', acc.2 ++ [(id, i)])) := by
   unfold rollbackCbOut
-  simp only [hc, hr, hg]
+  simp only [hc, hr, hg, isDeposit_comm]
   rfl
 
-/-- removing output `j` of a coinbase transaction, in general: the deposit record (if any) stays -/
-theorem rollbackCbOut_refines' {c : Ctx} {ready : List Wid} (hAR : AllReady c.own ready)
+/-- removing output `j` of a coinbase transaction: exactly `uncreateB`, as for an ordinary transaction
+    (`rollbackOut_refines`) — ledger entry, credit and, for an owned staking / binding output, the deposit record -/
+theorem rollbackCbOut_refines {c : Ctx} {ready : List Wid} (hAR : AllReady c.own ready)
     {s : Store} {bals : Bals} {acc : List (TxId × Nat)} {t : Tx} {bm : BlockMeta} {j : Nat} {o : Out} {Y : Book}
     (hL : Loc c.p c.own Y) (hR : AgreeR s Y) (hB : AgreeBal ready bals Y)
-    (hown : ∀ w ch, ownerOf c.own o = some (w, ch) → lookupU Y.L t.id j = some ⟨w, t.id, j, bm, t.cb, o, ch⟩)
+    (hown : ∀ w ch, ownerOf c.own o = some (w, ch) →
+      lookupU Y.L t.id j = some ⟨w, t.id, j, bm, t.cb, o, ch⟩ ∧
+      (isDeposit o.cls = true → Y.game ⟨w, o.cls.isBinding, false, t.id, bm.height, j⟩ = some ()))
     (hnone : ownerOf c.own o = none → Y.credits ⟨t.id, bm, j⟩ = none) :
     ∃ sb' acc', rollbackCbOut c t.id bm ((s, bals), acc) j o = .ok (sb', acc') ∧
-      AgreeR sb'.1 (uncreateCbB c.own t bm Y j o) ∧ AgreeBal ready sb'.2 (uncreateCbB c.own t bm Y j o) ∧
+      AgreeR sb'.1 (uncreateB c.own t bm Y j o) ∧ AgreeBal ready sb'.2 (uncreateB c.own t bm Y j o) ∧
       SameRest s sb'.1 := by
   cases ho : ownerOf c.own o with
   | none =>
-    have hY : uncreateCbB c.own t bm Y j o = Y := by unfold uncreateCbB; rw [ho]
+    have hY : uncreateB c.own t bm Y j o = Y := by unfold uncreateB; rw [ho]
     rw [hY]
     exact ⟨(s, bals), acc, rollbackCbOut_miss (by rw [hR.credits]; exact hnone ho), hR, hB, SameRest.refl s⟩
   | some wc =>
     obtain ⟨w, ch⟩ := wc
-    have hu := hown w ch ho
+    have hu := (hown w ch ho).1
     obtain ⟨hmem, -, -⟩ := lookupU_some hu
     obtain ⟨hraw, hget⟩ := ownerOf_some ho
     have hcred : AMap.get s.credits ⟨t.id, bm, j⟩ = some (creditOf c.p ⟨w, t.id, j, bm, t.cb, o, ch⟩) := by
       rw [hR.credits]; exact hL.cred _ hmem
-    have hY : uncreateCbB c.own t bm Y j o =
+    have hY : uncreateB c.own t bm Y j o =
         { Y with
           L := Y.L.filter (fun u => !UCoin.at t.id j u),
-          credits := upd Y.credits ⟨t.id, bm, j⟩ none } := by
-      unfold uncreateCbB; rw [ho]
+          credits := upd Y.credits ⟨t.id, bm, j⟩ none,
+          game := if isDeposit o.cls then upd Y.game ⟨w, o.cls.isBinding, false, t.id, bm.height, j⟩ none
+                  else Y.game } := by
+      unfold uncreateB; rw [ho]
     have hR0 : AgreeR { s with credits := AMap.erase s.credits ⟨t.id, bm, j⟩ }
         { Y with credits := upd Y.credits ⟨t.id, bm, j⟩ none } := by
       refine ⟨hR.unspent, ?_, hR.debits, hR.game, hR.txrecs⟩
@@ -413,26 +403,16 @@ theorem rollbackCbOut_refines' {c : Ctx} {ready : List Wid} (hAR : AllReady c.ow
     obtain ⟨sb1, h1, hR1, hB1, hS1, -, -⟩ :=
       rollbackOwnedOut_refines (bm := bm) (o := o) (w := w) (Y := { Y with credits := upd Y.credits ⟨t.id, bm, j⟩ none })
         hL.keys hR0 hB hu rfl rfl (ready_of_owner hAR ho)
+    have hS1' : SameRest s sb1.1 := ⟨hS1.sync, hS1.syncedTo, hS1.status, hS1.balance, hS1.blocks⟩
     rw [hY, rollbackCbOut_owned (acc := ((s, bals), acc)) hcred hraw hget, h1, M_ok_bind]
-    exact ⟨sb1, _, rfl, ⟨hR1.unspent, hR1.credits, hR1.debits, hR1.game, hR1.txrecs⟩, hB1,
-      ⟨hS1.sync, hS1.syncedTo, hS1.status, hS1.balance, hS1.blocks⟩⟩
-
-/-- removing output `j` of a coinbase transaction that is not an owned deposit output -/
-theorem rollbackCbOut_refines {c : Ctx} {ready : List Wid} (hAR : AllReady c.own ready)
-    {s : Store} {bals : Bals} {acc : List (TxId × Nat)} {t : Tx} {bm : BlockMeta} {j : Nat} {o : Out} {Y : Book}
-    (hL : Loc c.p c.own Y) (hR : AgreeR s Y) (hB : AgreeBal ready bals Y)
-    (hown : ∀ w ch, ownerOf c.own o = some (w, ch) →
-      lookupU Y.L t.id j = some ⟨w, t.id, j, bm, t.cb, o, ch⟩ ∧ isDeposit o.cls = false)
-    (hnone : ownerOf c.own o = none → Y.credits ⟨t.id, bm, j⟩ = none) :
-    ∃ sb' acc', rollbackCbOut c t.id bm ((s, bals), acc) j o = .ok (sb', acc') ∧
-      AgreeR sb'.1 (uncreateB c.own t bm Y j o) ∧ AgreeBal ready sb'.2 (uncreateB c.own t bm Y j o) ∧
-      SameRest s sb'.1 := by
-  have hnd : (ownerOf c.own o).isSome = true → isDeposit o.cls = false := by
-    intro h
-    cases ho : ownerOf c.own o with
-    | none => rw [ho] at h; cases h
-    | some wc => exact (hown wc.1 wc.2 ho).2
-  rw [uncreateB_eq_cb hnd]
-  exact rollbackCbOut_refines' hAR hL hR hB (fun w ch ho => (hown w ch ho).1) hnone
+    by_cases hd : isDeposit o.cls = true
+    · simp only [hd, if_true]
+      refine ⟨_, _, rfl, ?_, hB1, ⟨hS1'.sync, hS1'.syncedTo, hS1'.status, hS1'.balance, hS1'.blocks⟩⟩
+      refine ⟨hR1.unspent, hR1.credits, hR1.debits, ?_, hR1.txrecs⟩
+      intro k
+      simp only
+      rw [AMap.get_erase, hR1.game]; rfl
+    · simp only [hd, Bool.false_eq_true, if_false]
+      exact ⟨_, _, rfl, ⟨hR1.unspent, hR1.credits, hR1.debits, hR1.game, hR1.txrecs⟩, hB1, hS1'⟩
 
 end MW.Lemmas.Ledger
